@@ -340,5 +340,8 @@ def run(ctx, chk):
     r1_conversion(ctx, chk)
     r2_templates(ctx, chk)
     C08.argument_swap_rule(ctx, chk, "C17.3")
+    # the seed in the name identifies the board only if the board is a function of that seed (and of nothing else)
+    from . import C15
+    C15.r3_reproducible(ctx, chk, "C17.pre:C15.3")
     chk.require_instances("C17.1", 1)
     chk.require_instances("C17.2", 2)
